@@ -371,21 +371,24 @@ theorem inv_addCore (s1 s' : State) (e : Event) (ch : Bool) (hs1 : Inv s1)
         · simp only [h5, Bool.false_eq_true, if_false, AddResult.ok.injEq] at ha
           obtain ⟨rfl, _⟩ := ha; exact hs4
 
-/-- every committed `add_event`, whatever `pre_save` outcome was taken, keeps the invariant -/
-theorem inv_addEvent (s s' : State) (e : Event) (pre : PreOutcome) (ch : Bool) (h : Inv s)
-    (ha : addEvent s e pre = .ok s' ch) : Inv s' := by
+/-- every committed `add_event` keeps the invariant -/
+theorem inv_addEvent (s s' : State) (e : Event) (ch : Bool) (h : Inv s)
+    (ha : addEvent s e = .ok s' ch) : Inv s' := by
   unfold addEvent at ha
-  split at ha
-  · simp at ha
-  · have hs1 : Inv (afterPre s pre) := by
-      cases pre with
-      | victim id => exact inv_deleteId s id h
-      | noVictim => exact h
-      | raises => exact h
-    cases pre with
-    | raises => simp at ha
-    | noVictim => exact inv_addCore _ s' e ch hs1 ha
-    | victim id => exact inv_addCore _ s' e ch hs1 ha
+  cases hp : preSave s e with
+  | none => simp [hp] at ha
+  | some s1 =>
+    simp only [hp] at ha
+    have hs1 : Inv s1 := by
+      unfold preSave at hp
+      split at hp
+      · simp only [Option.some.injEq] at hp; subst hp; exact inv_deleteWhere s _ h
+      · split at hp
+        · split at hp
+          · simp at hp
+          · simp only [Option.some.injEq] at hp; subst hp; exact inv_deleteWhere s _ h
+        · simp only [Option.some.injEq] at hp; subst hp; exact h
+    exact inv_addCore s1 s' e ch hs1 ha
 
 theorem inv_gcSql (s : State) (now : Nat) (h : Inv s) : Inv (gcSql s now) := inv_deleteWhere s _ h
 
